@@ -1175,6 +1175,31 @@ def expr_of_function(fdef):
     if len(body) == 1 and isinstance(body[0], ast.Return) and \
             body[0].value is not None:
         return body[0].value
+    # x = E1 ; y = E2(x) ; return R(x, y)  ->  R with the locals replaced;
+    # a, b = E ; return a, b  ->  E
+    if len(body) >= 2 and isinstance(body[-1], ast.Return) and \
+            body[-1].value is not None and all(
+                isinstance(st, ast.Assign) and len(st.targets) == 1
+                for st in body[:-1]):
+        ret = body[-1].value
+        last = body[-2]
+        if len(body) == 2 and isinstance(last.targets[0], ast.Tuple) and \
+                isinstance(ret, ast.Tuple) and \
+                [N.txt(e) for e in last.targets[0].elts] == \
+                [N.txt(e) for e in ret.elts] and all(
+                    isinstance(e, ast.Name) for e in ret.elts):
+            return last.value
+        if all(isinstance(st.targets[0], ast.Name) for st in body[:-1]):
+            import copy
+            env = {}
+            seen = set()
+            for st in body[:-1]:
+                name = st.targets[0].id
+                if name in seen:
+                    return None
+                seen.add(name)
+                env[name] = N.subst(copy.deepcopy(st.value), env)
+            return N.subst(copy.deepcopy(ret), env)
     if body and isinstance(body[0], ast.If) and len(body[0].body) == 1 and \
             isinstance(body[0].body[0], ast.Return) and \
             body[0].body[0].value is not None:
